@@ -143,9 +143,21 @@ def unsupplied_junctions(net, mg=None, slacks=None, respect_valves=True):
          top.unsupplied_junctions(net)
     """
 
-    mg = mg or create_nxgraph(net, respect_status_valves=respect_valves)
+    if mg is None:
+        # heat consumers and flow controllers with active control prescribe a mass flow, they do not
+        # connect their two junctions hydraulically (cf. the connectivity check of the pipeflow)
+        passive_flow_controls = False
+        if "flow_control" in net and len(net.flow_control):
+            passive_flow_controls = list(net.flow_control.index[~net.flow_control.control_active.values])
+        mg = create_nxgraph(net, respect_status_valves=respect_valves, include_heat_consumers=False,
+                            include_flow_controls=passive_flow_controls)
     if slacks is None:
-        slacks = set(net.ext_grid[net.ext_grid.in_service].junction.values)
+        # junctions with a fixed pressure: external grids of type p / pt and the flow junctions of circulation pumps
+        eg = net.ext_grid[net.ext_grid.in_service.values & net.ext_grid.type.astype(str).str.contains("p").values]
+        slacks = set(eg.junction.values)
+        for circ_pump in ("circ_pump_pressure", "circ_pump_mass"):
+            if circ_pump in net and len(net[circ_pump]):
+                slacks |= set(net[circ_pump].flow_junction.values[net[circ_pump].in_service.values])
     not_supplied = set()
     for cc in nx.connected_components(mg):
         if not set(cc) & slacks:
